@@ -9,6 +9,7 @@ package engine
 import (
 	"fmt"
 	"math/big"
+	"math/rand"
 	"reflect"
 	"runtime"
 	"strings"
@@ -59,6 +60,7 @@ type HintCall struct {
 	Site    string // static call chain inside the repository, innermost first
 	Occ     int    // occurrence number of this site in this run (0-based)
 	Global  int    // global hint counter
+	Depth   int    // number of repository frames on the stack at the call
 	Inputs  []*big.Int
 	Honest  []*big.Int // nil if the honest hint failed
 	HonestE string
@@ -73,8 +75,17 @@ type SiteStat struct {
 	Site     string
 	Count    int
 	MaxIn    []*big.Int // per input: max exact upper bound seen (interval analysis), nil if not tracked
-	QBits    int        // enforced width of output 0 where the proxy could see it (-1 unknown)
+	QBits    int        // unused
 	FirstOcc int
+	OutBits  []map[int]int // per output: enforced n-bit widths seen on that output (width -> count)
+	OutCanon []int         // per output: number of times the output went into a canonical RangeCheck
+	NOut     int
+	Sample   [][2]int // seeded reservoir of (occurrence, global hint index) pairs; entry 0 is occurrence 0
+}
+
+type pendRef struct {
+	st  *SiteStat
+	idx int
 }
 
 // Config configures one run of a circuit against the proxy.
@@ -99,10 +110,29 @@ type Config struct {
 	nHints   int
 	Checks   []CheckRec // native Check calls / ToBinary widths / Decompose hints
 	bounds   map[*big.Int]*big.Int
+	pending  map[*big.Int]pendRef
+	canon    map[*big.Int][2]*big.Int  // x -> (hi, lo) of a canonical range check in progress
 	LeafUse  map[string]map[string]int // leaf -> consumer kind -> count
 	Counters map[string]int
 	Deferred int
 	Commits  int
+
+	// local verdict of a substitution: set when the first hint call at the same or a shallower nesting depth
+	// is reached after the substituted one, i.e. when the substituted gadget has returned without a failed constraint
+	SampleRng       *rand.Rand // seeded sampling of occurrences per static site
+	TargetGlobal    int        // >0: the Strategy is consulted only for the hint call with this global index (and its site computed only there)
+	AbortAfterLocal bool
+	LocalAccepted   bool
+	watching        bool
+	watchDepth      int
+}
+
+// EndOfDefine is called by the harness circuits when Define returned normally.
+func (c *Config) EndOfDefine() {
+	if c.watching {
+		c.watching = false
+		c.LocalAccepted = true
+	}
 }
 
 type CheckRec struct {
@@ -148,8 +178,15 @@ func (b *base) Compiler() frontend.Compiler { return b.comp }
 func (b *base) VerifEvent(kind string, args ...any) {
 	c := b.cfg
 	c.count("ev:" + kind)
-	if kind == "rcdeliver" || kind == "rcreq" {
-		// keep light: only counters unless requested
+	if kind == "rcreq" && c.pending != nil {
+		if p, ok := args[1].(*big.Int); ok {
+			if pr, ok := c.pending[p]; ok {
+				if pr.st.OutBits[pr.idx] == nil {
+					pr.st.OutBits[pr.idx] = map[int]int{}
+				}
+				pr.st.OutBits[pr.idx][args[2].(int)]++
+			}
+		}
 	}
 	if !c.wants(kind) {
 		return
@@ -201,17 +238,37 @@ func ToBig(v frontend.Variable) *big.Int {
 	case reflect.Int, reflect.Int8, reflect.Int16, reflect.Int32, reflect.Int64:
 		return new(big.Int).Mod(big.NewInt(rv.Int()), R)
 	}
+	// field elements of gnark-crypto (e.g. goldilocks.Element): BigInt is defined on the pointer receiver
+	pv := reflect.New(rv.Type())
+	pv.Elem().Set(rv)
+	if m, ok := pv.Interface().(interface{ BigInt(*big.Int) *big.Int }); ok {
+		x := m.BigInt(new(big.Int))
+		return x.Mod(x, R)
+	}
+	if m, ok := v.(interface{ BigInt(*big.Int) *big.Int }); ok {
+		x := m.BigInt(new(big.Int))
+		return x.Mod(x, R)
+	}
 	panic(fmt.Sprintf("ToBig: unsupported %T", v))
 }
 
 // ---- bounds (interval analysis) ----------------------------------------------------------------
 
 var rMinus1 = new(big.Int).Sub(R, big.NewInt(1))
+var pMinus1 = new(big.Int).Sub(P, big.NewInt(1))
+var max32 = new(big.Int).SetUint64(1<<32 - 1)
 
 func (b *base) bound(v frontend.Variable) *big.Int {
 	c := b.cfg
 	if p, ok := v.(*big.Int); ok {
 		if bd, ok := c.bounds[p]; ok {
+			if hl, ok := c.canon[p]; ok && bd.Cmp(pMinus1) > 0 {
+				// x = hi*2^32 + lo was asserted (its bound is then at most 2^64-1) and both limbs have received their
+				// 32-bit check: together with the top-limb rule the value is canonical (C06 establishes that composition)
+				if b.bound(hl[0]).Cmp(max32) <= 0 && b.bound(hl[1]).Cmp(max32) <= 0 {
+					return pMinus1
+				}
+			}
 			return bd
 		}
 		if _, isLeaf := c.Leaves[p]; isLeaf {
@@ -528,44 +585,59 @@ func HintName(f solver.Hint) string {
 
 const repoPkg = "github.com/wormhole-foundation/example-near-light-client/"
 
-// callSite returns the chain of function names inside the repository's packages, innermost first.
-func callSite() string {
-	var pcs [48]uintptr
+// callSite returns the chain of function names inside the repository's packages, innermost first (at most
+// six frames), and the total number of repository frames on the stack (the nesting depth of the call).
+func callSite() (string, int) {
+	var pcs [96]uintptr
 	n := runtime.Callers(3, pcs[:])
 	fr := runtime.CallersFrames(pcs[:n])
 	var parts []string
+	depth := 0
 	for {
 		f, more := fr.Next()
 		if strings.HasPrefix(f.Function, repoPkg) {
-			name := strings.TrimPrefix(f.Function, repoPkg)
-			parts = append(parts, name)
-			if len(parts) >= 6 {
-				break
+			depth++
+			if len(parts) < 6 {
+				parts = append(parts, strings.TrimPrefix(f.Function, repoPkg))
 			}
 		}
 		if !more {
 			break
 		}
 	}
-	return strings.Join(parts, "<-")
+	return strings.Join(parts, "<-"), depth
 }
+
+// LocalPass is the panic value used to stop a run as soon as the substituted gadget has returned.
+const LocalPass = "verif: the gadget's local constraints passed"
 
 func (c *comp) NewHint(f solver.Hint, nbOutputs int, inputs ...frontend.Variable) ([]frontend.Variable, error) {
 	cfg := c.b.cfg
 	name := HintName(f)
-	needSite := cfg.Strategy != nil || cfg.Sites != nil
-	call := &HintCall{Name: name, Global: cfg.nHints}
+	needSite := (cfg.Strategy != nil && (cfg.TargetGlobal <= 0 || cfg.TargetGlobal == cfg.nHints+1)) || cfg.Sites != nil
 	cfg.nHints++
+	call := &HintCall{Name: name, Global: cfg.nHints}
 	cfg.count("hint:" + name)
+	if cfg.watching {
+		_, d := callSite()
+		if d <= cfg.watchDepth {
+			cfg.watching = false
+			cfg.LocalAccepted = true
+			if cfg.AbortAfterLocal {
+				panic(LocalPass)
+			}
+		}
+	}
 	if needSite {
-		call.Site = callSite()
+		call.Site, call.Depth = callSite()
 		if cfg.siteOcc == nil {
 			cfg.siteOcc = map[string]int{}
 		}
 		call.Occ = cfg.siteOcc[call.Site]
 		cfg.siteOcc[call.Site]++
 	}
-	if cfg.Strategy != nil || cfg.Permissive {
+	targeted := cfg.Strategy != nil && (cfg.TargetGlobal <= 0 || cfg.TargetGlobal == call.Global)
+	if targeted || cfg.Permissive {
 		call.Inputs = make([]*big.Int, len(inputs))
 		for i, x := range inputs {
 			call.Inputs[i] = c.b.big(x)
@@ -592,9 +664,12 @@ func (c *comp) NewHint(f solver.Hint, nbOutputs int, inputs ...frontend.Variable
 	} else {
 		call.HonestE = err.Error()
 	}
-	if cfg.Strategy != nil {
+	if targeted {
 		if sub := cfg.Strategy(call); sub != nil {
 			cfg.count("subst")
+			if !cfg.watching && !cfg.LocalAccepted {
+				cfg.watching, cfg.watchDepth = true, call.Depth
+			}
 			out = make([]frontend.Variable, len(sub))
 			for i, s := range sub {
 				out[i] = new(big.Int).Mod(s, R)
@@ -618,13 +693,36 @@ func (c *comp) NewHint(f solver.Hint, nbOutputs int, inputs ...frontend.Variable
 	if cfg.Sites != nil {
 		st := cfg.Sites[call.Site]
 		if st == nil {
-			st = &SiteStat{Name: name, Site: call.Site, QBits: -1, FirstOcc: call.Global}
+			st = &SiteStat{Name: name, Site: call.Site, QBits: -1, FirstOcc: call.Global, NOut: nbOutputs,
+				OutBits: make([]map[int]int, nbOutputs), OutCanon: make([]int, nbOutputs)}
 			if cfg.TrackBounds {
 				st.MaxIn = make([]*big.Int, len(inputs))
 			}
 			cfg.Sites[call.Site] = st
 		}
 		st.Count++
+		if len(st.Sample) < 5 {
+			st.Sample = append(st.Sample, [2]int{st.Count - 1, call.Global})
+		} else if cfg.SampleRng != nil {
+			if j := cfg.SampleRng.Intn(st.Count); j < 4 {
+				st.Sample[1+j] = [2]int{st.Count - 1, call.Global}
+			}
+		}
+		if cfg.pending == nil {
+			cfg.pending = map[*big.Int]pendRef{}
+		}
+		if name == "SplitLimbsHint" && strings.Contains(call.Site, "goldilocks.(*Chip).RangeCheck") {
+			if p, ok := inputs[0].(*big.Int); ok {
+				if pr, ok := cfg.pending[p]; ok {
+					pr.st.OutCanon[pr.idx]++
+				}
+			}
+		}
+		for i, o := range out {
+			if p, ok := o.(*big.Int); ok {
+				cfg.pending[p] = pendRef{st, i}
+			}
+		}
 		if cfg.TrackBounds {
 			for i, x := range inputs {
 				bd := c.b.bound(x)
@@ -637,6 +735,17 @@ func (c *comp) NewHint(f solver.Hint, nbOutputs int, inputs ...frontend.Variable
 	if cfg.TrackBounds {
 		for _, o := range out {
 			c.b.setBound(o, rMinus1)
+		}
+		if name == "SplitLimbsHint" && len(out) == 2 && strings.Contains(callSiteOr(call), "goldilocks.(*Chip).RangeCheck") {
+			if p, ok := inputs[0].(*big.Int); ok {
+				if cfg.canon == nil {
+					cfg.canon = map[*big.Int][2]*big.Int{}
+				}
+				cfg.canon[p] = [2]*big.Int{out[0].(*big.Int), out[1].(*big.Int)}
+				if _, has := cfg.bounds[p]; !has {
+					cfg.bounds[p] = c.b.bound(p)
+				}
+			}
 		}
 	}
 	if name == "DecomposeHint" {
@@ -653,6 +762,13 @@ func (c *comp) NewHint(f solver.Hint, nbOutputs int, inputs ...frontend.Variable
 		}
 	}
 	return out, nil
+}
+
+func callSiteOr(c *HintCall) string {
+	if c.Site == "" {
+		c.Site, c.Depth = callSite()
+	}
+	return c.Site
 }
 
 // GenericHint is what an unconstrained prover would compute: the same arithmetic as the honest hint
